@@ -483,6 +483,8 @@ func (u *Universe) makeResolver(def *ast.Definition, fd *ast.FieldDefinition, ft
 	})
 }
 
+var timeType = reflect.TypeOf(time.Time{})
+
 func nonNull(t *ast.Type) *ast.Type {
 	c := *t
 	c.NonNull = true
@@ -587,7 +589,11 @@ func (u *Universe) build(e *Exec, goT reflect.Type, t *ast.Type, key string, sh 
 	o := e.Plan.Get(key, !t.NonNull)
 	if o.Kind == plan.Nil {
 		// gqlgen treats a nil slice in a non-null list position as an empty list; plans never ask for it
-		if nilable(goT) {
+		if nilable(goT) && !(goT.Kind() == reflect.Slice && t.NonNull) {
+			return reflect.Zero(goT)
+		}
+		if goT == timeType {
+			// the zero time.Time is how a non-pointer Time says "absent": MarshalTime writes null
 			return reflect.Zero(goT)
 		}
 		atomic.AddInt64(&e.Unrepresentable, 1)
@@ -709,6 +715,16 @@ func (u *Universe) scalar(e *Exec, goT reflect.Type, def *ast.Definition, key st
 	}
 	var v reflect.Value
 	payload := ScalarPayload(e.Plan, def, key)
+	if t == timeType {
+		tv, _ := time.Parse(time.RFC3339Nano, fmt.Sprint(payload))
+		v = reflect.ValueOf(tv)
+		if ptr {
+			p := reflect.New(t)
+			p.Elem().Set(v)
+			return p
+		}
+		return v
+	}
 	switch t.Kind() {
 	case reflect.String:
 		v = reflect.ValueOf(fmt.Sprint(payload)).Convert(t)
@@ -756,6 +772,9 @@ func ScalarPayload(p *plan.Plan, def *ast.Definition, key string) any {
 		return vals[p.Pick(key, len(vals))]
 	}
 	switch def.Name {
+	case "Time":
+		// what graphql.MarshalTime writes for it: RFC3339Nano, UTC, never the zero time
+		return time.Unix(int64(p.H(key, "time")%2000000000)+1, int64(p.H(key, "nsec")%3)*500000000).UTC().Format(time.RFC3339Nano)
 	case "Int":
 		return p.Int(key)
 	case "Float":
